@@ -148,7 +148,7 @@ CLAIMED['C02'] = {
             'maybe_check_after_insertion which validates when the policy fires; the insertion owners are clean on failure (C03 '
             'rollback dataflow), re-created vertices keep UUID and data; the plain and the statistics-reporting insertion entry '
             'points reach the same validators; no insertion function returns success after the cavity fill / hull extension '
-            'without the orientation normalisation and check; the key reported after the post-insertion repair is the one that repair handed back. Path-sensitive for literal bool flags. '
+            'without the orientation normalisation and check; the key reported after the post-insertion repair is the one that repair handed back; a rebuilt candidate that replaces the receiver carries the configured check / repair policies and the insertion counter. Path-sensitive for literal bool flags. '
             'Decides that no committing path skips the net; not that the validators suffice.',
     'note': 'Trusted: rustc MIR; edges taken when number_of_cells() == 0 and is_empty() on the checked collection are '
             'cut as legitimate bypasses; Pseudomanifold + ValidationPolicy::Never has no gate by design.',
@@ -162,7 +162,7 @@ CLAIMED['C06'] = {
             'Ok(0); the fan retriangulation reports success only behind the local facet, orientation and incidence checks; '
             'when the repair policy fires, Ok lies behind the success edge of the verified flip repair, and that decision does '
             'not read the insertion counter; the fan retriangulation must report success only behind a Level-3 validation of '
-            'its result (violated today: known finding F13, hull vertices); the fan apex is selected with the facet (opposite-vertex) index or an (in)equality test, so it cannot be the removed vertex; the fan fill closes every boundary facet that does not contain the apex. Decides rollback, the no-op clause and the gating '
+            'its result (violated today: known finding F13, hull vertices); the fan apex is selected with the facet (opposite-vertex) index or an (in)equality test, so it cannot be the removed vertex; the fan fill closes every boundary facet that does not contain the apex; the raw Tds removal (deletes the star, fills nothing) is reached only behind the fan fill or behind an emptiness decision on the star computed from the cells stored in the Tds. Decides rollback, the no-op clause and the gating '
             'of removal; not whether a valid fan exists.',
     'note': 'Trusted: as for C03. Known finding F13 is listed in known_findings.txt with its run-time witnesses; the check '
             'prints KNOWN-FINDING for it and exits 0.',
